@@ -43,8 +43,10 @@ def op_universe():
     for n in ('lng', 'LNG'):
         for t in TARGETS:
             ops.append(('register_generator', n, t))
-    for n, t, anyp in (('lng', 't', False), ('LNG', 'T', False), ('other', 't', True), ('other', 't', False)):
+    for n, t, anyp in (('lng', 't', False), ('LNG', 'T', False), ('other', 't', True), ('other', 't', False),
+                       ('textX', 'dot', False), ('other', 'DOT', True)):      # the last two: entry-point generators
         ops.append(('generator_description', n, t, anyp))
+    ops.append(('language_description', 'TextX'))                             # an entry-point language
     ops.append(('clear_generator_registrations',))
     return ops
 
@@ -180,13 +182,27 @@ def real_step(op, payloads, ids):
     raise ValueError(op)
 
 
+_ENTRY = []
+
+
 def entry_state():
+    """what the installed entry points declare — read with importlib.metadata,
+    not through textx.registration; the real registries are left cleared
+    (their lazy 'not loaded yet' state), which is where every history starts"""
     import textx.registration as REG
+    if not _ENTRY:
+        from importlib.metadata import entry_points
+        langs, gens = {}, {}
+        for ep in entry_points(group='textx_languages'):
+            d = ep.load()
+            langs[d.name.lower()] = (d.name, d.pattern, 'entry', None)
+        for ep in entry_points(group='textx_generators'):
+            d = ep.load()
+            gens.setdefault(d.language.lower(), {})[d.target.lower()] = (d.language, d.target)
+        _ENTRY.append((langs, gens))
     REG.clear_language_registrations()
     REG.clear_generator_registrations()
-    langs = {k: (v.name, v.pattern, 'entry', None) for k, v in REG.language_descriptions().items()}
-    gens = {k: {t: (g.language, g.target) for t, g in v.items()} for k, v in REG.generator_descriptions().items()}
-    return langs, gens
+    return _ENTRY[0]
 
 
 def run_sequence(seq):
